@@ -106,6 +106,12 @@ func validateFragmentSpreads(doc *ast.Document, s *schema.Schema, features schem
 			ret = append(ret, newSecondaryError(tc, "no type info for fragment spread parent"))
 			return
 		}
+		switch parentType.(type) {
+		case *schema.ObjectType, *schema.InterfaceType, *schema.UnionType:
+		default:
+			// selections on non-composite types are reported by the field rules
+			return
+		}
 		switch fragmentType := namedType(s, features, tc.Name.Name).(type) {
 		case *schema.ObjectType, *schema.InterfaceType, *schema.UnionType:
 			a := getPossibleTypes(s, fragmentType)
